@@ -90,6 +90,8 @@ def jobs_for(tier, only, kind):
         for code in ((0x0B,) if tier == 'quick' else (0x04, 0x0B)):
             name, size, k = W.VSS_TYPES[code]
             pls = [254, 255, 256, 510, 511, 512] if tier == 'quick' else [253, 254, 255, 256, 257, 509, 510, 511, 512, 513, 1022, 1023, 1024, 1534, 1535]
+            if kind == 'c08':
+                pls = [x for x in pls if x <= 257]      # decode + encode of longer paths exceeds 24 GB (measured)
             for pl in pls:
                 src, M = gen_e(code, W.VSS_ADDR_INTEROP, pl, 1 if k == 'scalar' else 3)
                 jobs.append(Job('%s.%s.interop.E.p%d.pathlen' % (kind, name, pl), src, SRC, unwind=max(70, M + 8),
